@@ -428,3 +428,27 @@ def gen_C12(r):
 
 
 GEN["C12"] = gen_C12
+
+
+def gen_C16(r):
+    scn = _small_project(r, n=(2, 5), kinds={"exp": 6, "cmd": 3, "group": 1, "combine": 1}, p_par=0.7)
+    scn["knobs"]["p_async"] = r.choice([0.0, 1e-3, 5e-3, 2e-2])
+    ops = []
+    if r.random() < 0.3:
+        ops.append(_run_op(r, scn["tasks"], jobs_choices=(None, 2), again_p=0.0, files=False, cwds=("",)))
+    op = _run_op(r, scn["tasks"], jobs_choices=(None, 1, 2, 2, 3), again_p=0.7,
+                 fail_p=r.choice([0.0, 0.0, 0.2]), files=r.random() < 0.5, out=r.random() < 0.5, cwds=("",),
+                 stop_early_p=0.1)
+    # children that stay in flight for a while
+    for t, lst in op["scripts"].items():
+        for sc in lst:
+            sc["steps"] = sc["steps"] + [["nop"]] * r.choice([0, 1, 3, 6])
+            if r.random() < 0.3:
+                sc["term_delay"] = r.choice([1, 3])
+    ops.append(op)
+    scn["history"] = ops
+    scn["enum"] = {"step": len(ops) - 1, "budget": 120 if _tier() == "quick" else 100000}
+    return scn
+
+
+GEN["C16"] = gen_C16
